@@ -12,6 +12,7 @@ import (
 	"pgregory.net/rapid"
 	"verif/harness/ev"
 	"verif/harness/oracle"
+	"verif/harness/vocab"
 )
 
 // C15 — Collection IRIs and their owners convert back and forth consistently.
@@ -106,8 +107,20 @@ func c15Item(kind string, id string, c ap.CollectionPath, explicit string) (ds [
 	switch kind {
 	case "actor":
 		x = &ap.Actor{ID: ap.IRI(id), Type: ap.PersonType}
-	default:
+	case "object":
 		x = &ap.Object{ID: ap.IRI(id), Type: ap.NoteType}
+	default:
+		// any other object type as the owner (kind = its Go type): a collection is an object too, and owns collections the same way;
+		// the ones that hold members hold one, which has nothing to do with the collections the holder owns
+		p := reflect.New(vocab.StructType(kind))
+		p.Elem().FieldByName("ID").SetString(id)
+		p.Elem().FieldByName("Type").SetString(string(vocab.DefaultType[kind]))
+		for _, n := range []string{"Items", "OrderedItems"} {
+			if f := p.Elem().FieldByName(n); f.IsValid() {
+				f.Set(reflect.ValueOf(ap.ItemCollection{ap.IRI("https://example.com/members/1"), &ap.Actor{ID: "https://example.com/members/2", Type: ap.PersonType}}))
+			}
+		}
+		x = p.Interface().(ap.Item)
 	}
 	var want ap.Item
 	f := reflect.ValueOf(x).Elem().FieldByName(fieldOf[c])
@@ -199,7 +212,13 @@ func TestC15(t *testing.T) {
 	}
 	if r.WantLayer("items", true) {
 		done, total := 0, 0
-		for _, kind := range []string{"actor", "object"} {
+		kinds := []string{"actor", "object"}
+		for _, st := range vocab.StructTypes {
+			if st.Name() != "Link" && st.Name() != "Object" && st.Name() != "Actor" {
+				kinds = append(kinds, st.Name())
+			}
+		}
+		for _, kind := range kinds {
 			for _, id := range []string{"https://example.com/users/jdoe", "https://example.com:8443/~a/", "http://sub.example.org/inbox/b", "https://example.com"} {
 				for _, c := range c15Names {
 					for _, ex := range []string{"", "iri", "collection"} {
